@@ -158,7 +158,7 @@ v("C12", "client-path-concat", "httpgrpc/client.go",
 	ctx, err := internal.ApplyPerRPCCreds(ctx, copts, reqUrlStr, reqUrl.Scheme == "https")
 	if err != nil {
 		return nil, err
-	}""", "R4", "path-sites", "client stream path not joined")
+	}""", "R4", "path-site", "client stream path not joined")
 v("C12", "wrong-entry-name", "httpgrpc/server.go",
   """		sd := desc.Streams[i]
 		h := handleStream(svr, desc.ServiceName, &sd, s.streamInt, &s.opts)
